@@ -237,7 +237,7 @@ class XMLParserMixin(
         if self.baseuri:
             self.baseuri = make_safe_absolute_uri(self.baseuri, baseuri) or self.baseuri
         else:
-            self.baseuri = _urljoin(self.baseuri, baseuri)
+            self.baseuri = make_safe_absolute_uri(_urljoin(self.baseuri, baseuri))
         lang = attrs_d.get("xml:lang", attrs_d.get("lang"))
         if lang == "":
             # xml:lang could be explicitly set to '', we need to capture that
